@@ -156,6 +156,36 @@ func runC18(res *lib.Result, tier string, seed int64, args []string) error {
 	defer drv.Close()
 	root := lib.NewRng(uint64(seed))
 	// ---------------- unit ----------------
+	// fixed trees (every tier): mirrored sub-trees, where directory names coincide at the same depth in a subtree that
+	// does NOT share the requiring file's prefix
+	for _, fc := range [][]string{
+		{"srv/src/core/main.lua", "mod", "srv/src/core/main.lua", "zcli/src/core/mod.lua", "srv/lib/util/mod.lua"},
+		{"srv/src/main.lua", "mod", "srv/src/main.lua", "cli/src/mod.lua", "srv/lib/mod.lua"},
+		{"app1/game/logic/main.lua", "util/mod", "app1/game/logic/main.lua", "app2/game/logic/util/mod.lua", "app1/game/share/util/mod.lua"},
+		{"a/x/y/main.lua", "mod.lua", "a/x/y/main.lua", "b/x/y/mod.lua", "a/p/q/mod.lua", "c/x/y/mod.lua"},
+	} {
+		rootDir, cur, refer, luaFiles := "/ws/proj", fc[0], fc[1], fc[2:]
+		idx := common.CreateFileIndexInfo()
+		for _, f := range luaFiles {
+			idx.InsertOneFile(rootDir + "/" + f)
+		}
+		impl := common.GetBestMatchReferFile(rootDir+"/"+cur, refer, map[string]string{}, idx)
+		ans, err := drv.Ask("modbest " + hexArgs(append([]string{rootDir, cur, refer}, luaFiles...)...))
+		if err != nil {
+			return err
+		}
+		var set []string
+		if b := strings.TrimPrefix(ans, "B="); b != "" {
+			set = strings.Split(b, "|")
+		}
+		res.Count(fmt.Sprintf("u|%s|%s|%s|%s", rootDir, cur, refer, strings.Join(luaFiles, ",")), len(set) > 0)
+		res.Dist("unit.mirrored-subtrees")
+		implRel := strings.TrimPrefix(impl, rootDir+"/")
+		if (impl == "") != (len(set) == 0) || (impl != "" && !inList(set, implRel)) {
+			res.AddViolation("impl-vs-model", fmt.Sprintf("GetBestMatchReferFile(%q, %q) = %q, model's best candidates %v", rootDir+"/"+cur, refer, impl, set),
+				fmt.Sprintf("root %s files %v", rootDir, luaFiles), true)
+		}
+	}
 	for i := 0; i < nUnit; i++ {
 		r := root.Fork(uint64(i))
 		t := genC18Tree(r)
